@@ -2,7 +2,7 @@
 short_time family on symbolic hours, minutes, seconds."""
 from harness.dtcommon import *  # noqa
 
-DESC = sl('desc', '')            # '', 'am', 'pm', 'a.m.', 'p.m.', 'a', 'p'
+DESC = sl('desc', '')            # '', 'am', 'pm', 'a.m.', 'p.m.', and spaced/dotted variants
 HAS_MIN = sl('has_min', 1)
 HAS_SEC = sl('has_sec', 0)
 HW = sl('hw', 2)                 # width of the hour field as written (1 or 2 digits)
